@@ -226,6 +226,24 @@ class CLAMP(Pat):
         return 'CLAMP(%r,%r,%r)' % (self.x, self.lo, self.hi)
 
 
+class CALLARG(Pat):
+    """any call or method call whose callee name contains `name` and one of whose arguments
+    (or receiver) matches p"""
+
+    def __init__(self, name, p):
+        self.name, self.p = name, p
+
+    def m(self, ctx, e):
+        e = strip(e)
+        if not isinstance(e, dict):
+            return False
+        if e.get('k') == 'mcall' and self.name in e.get('name', ''):
+            return any(self.p.m(ctx, a) for a in [e['recv']] + e['args'])
+        if e.get('k') == 'call' and e['f'].get('k') == 'path' and self.name in (e['f'].get('name') or ''):
+            return any(self.p.m(ctx, a) for a in e['args'])
+        return False
+
+
 class TRY(Pat):
     """`p?`"""
 
